@@ -11,7 +11,7 @@ func init() {
 func runCrash(rep *Report) {
 	tot := engine.CrashStats{}
 	for i := 0; i < *fN; i++ {
-		if !mine(i) {
+		if !startProgram(i) {
 			continue
 		}
 		ps := progSeed(*fSeed, i)
